@@ -29,7 +29,7 @@ package armor
 //@   ensures#twice old(a.closed) ==> err != nil && a.dst.$out == old(a.dst.$out)                                                     [C08 C13]
 //@   ensures#closed a.closed                                                                                                        [C08]
 //@   ensures#hdr (!old(a.closed) && err == nil) ==> a.started                                                                        [C08]
-//@   ensures#text (!old(a.closed) && err == nil && old(a.started)) ==> a.dst.$out == cat(a.encoder.$out0, wrapcols(0, encof(a.encoder.$enc, a.encoder.$acc)), (len(encof(a.encoder.$enc, a.encoder.$acc)) % 64 == 0 ? FOOTERLINE : NLFOOTERLINE))   [C05 C08 C13]
+//@   ensures#text (!old(a.closed) && err == nil && old(a.started)) ==> a.dst.$out == cat(a.encoder.$out0, wrapcols(0, encof(a.encoder.$enc, a.encoder.$acc)), (len(encof(a.encoder.$enc, a.encoder.$acc)) % 64 == 0 ? FOOTERLINE : NLFOOTERLINE))   [C05 C08 C13 C01]
 //@   modifies a.closed, a.started, a.dst.$out, a.encoder.written, a.encoder.buf.$bbuf
 
 //@ func NewWriter(dst) (wc)
@@ -37,6 +37,12 @@ package armor
 //@   ensures#type typeis(wc, "*filippo.io/age/armor.armoredWriter")                                                                  [C08]
 //@   ensures#init cast(wc, "filippo.io/age/armor.armoredWriter").dst == dst && !cast(wc, "filippo.io/age/armor.armoredWriter").started && !cast(wc, "filippo.io/age/armor.armoredWriter").closed && awinv(cast(wc, "filippo.io/age/armor.armoredWriter"))   [C08]
 //@   call NewWrappedBase64Encoder#1 requires arg0 == base64.StdEncoding && arg1 == dst                                               [C05 C08]
+
+//@ func NewReader(r) (rd)
+//@   requires r != nil
+//@   call bufio.NewReader#1 requires arg0 == r                                                                                      [C12]
+//@   ensures#type typeis(rd, "*filippo.io/age/armor.armoredReader")                                                                 [C08 C12]
+//@   ensures#init !cast(rd, "filippo.io/age/armor.armoredReader").started && cast(rd, "filippo.io/age/armor.armoredReader").err == nil && len(cast(rd, "filippo.io/age/armor.armoredReader").unread) == 0   [C08 C12]
 
 //@ pred arinv(r) := r.r != nil && len(r.unread) <= 48 && (len(r.unread) > 0 ==> rg(r.unread) == rg(r.buf)) && ((r.err != nil && r.err != io.EOF) ==> typeis(r.err, "*filippo.io/age/armor.Error"))
 
@@ -78,9 +84,9 @@ package armor
 //@   ensures#inv arinv(r)
 //@   ensures#n 0 <= n && n <= len(p)                                                                                               [C12 C14]
 //@   ensures#sticky (old(r.err) != nil && len(old(r.unread)) == 0) ==> n == 0 && err == old(r.err) && r.err == old(r.err) && r.r.$rem == old(r.r.$rem)   [C08 C13]
-//@   ensures#stored err != nil ==> r.err == err && n == 0                                                                           [C08 C13]
+//@   ensures#stored err != nil ==> r.err == err && n == 0                                                                           [C08 C13 C14]
 //@   ensures#type (err != nil && err != io.EOF) ==> typeis(err, "*filippo.io/age/armor.Error")                                       [C08 C14]
-//@   ensures#clean err != nil ==> len(r.unread) == 0                                                                                [C08 C13]
+//@   ensures#clean err != nil ==> len(r.unread) == 0                                                                                [C08 C13 C14]
 //@   ensures#nonempty (len(old(r.unread)) == 0 && old(r.err) == nil && err == nil) ==> len(r.unread) + n > 0                         [C08]
 //@   ensures#shortlast (len(old(r.unread)) == 0 && old(r.err) == nil && err == nil && len(r.unread) + n < 48) ==> r.err != nil        [C08]
 //@   ensures#oneline (len(old(r.unread)) == 0 && old(r.err) == nil && err == nil && old(r.started)) ==> len(r.unread) + n <= 48       [C08 C12]
